@@ -45,10 +45,13 @@ pub enum Rule { None, Fixed(i128), Alt { std: i128, dst: i128, start: RDay, star
 #[derive(Clone, Debug)]
 pub struct TzAst { pub version: u8, pub trans: Vec<(i128, i128)>, pub types: Vec<i128>, pub rule: Rule }
 
+// when set, the printer writes the canonical long form of TzFooter.v (h:mm:ss everywhere, explicit DST offset and /time)
+pub static FULL_FORM: std::sync::atomic::AtomicBool = std::sync::atomic::AtomicBool::new(false);
+fn full() -> bool { FULL_FORM.load(std::sync::atomic::Ordering::Relaxed) }
 fn hms(mut secs: i128) -> String {
     let neg = secs < 0; if neg { secs = -secs; }
     let (h, m, s) = (secs / 3600, secs / 60 % 60, secs % 60);
-    let body = if s != 0 { format!("{}:{:02}:{:02}", h, m, s) } else if m != 0 { format!("{}:{:02}", h, m) } else { format!("{}", h) };
+    let body = if s != 0 || full() { format!("{}:{:02}:{:02}", h, m, s) } else if m != 0 { format!("{}:{:02}", h, m) } else { format!("{}", h) };
     if neg { format!("-{}", body) } else { body }
 }
 fn rday(d: &RDay) -> String {
@@ -60,9 +63,9 @@ pub fn tz_string(rule: &Rule, quoted: bool) -> String {
         Rule::None => String::new(),
         Rule::Fixed(u) => format!("{}{}", a, hms(-u)),
         Rule::Alt { std, dst, start, start_time, end, end_time } => {
-            let dst_part = if *dst == *std + 3600 { String::new() } else { hms(-dst) };
-            let st = if *start_time == 7200 { String::new() } else { format!("/{}", hms(*start_time)) };
-            let et = if *end_time == 7200 { String::new() } else { format!("/{}", hms(*end_time)) };
+            let dst_part = if *dst == *std + 3600 && !full() { String::new() } else { hms(-dst) };
+            let st = if *start_time == 7200 && !full() { String::new() } else { format!("/{}", hms(*start_time)) };
+            let et = if *end_time == 7200 && !full() { String::new() } else { format!("/{}", hms(*end_time)) };
             format!("{}{}{}{},{}{},{}{}", a, hms(-std), b, dst_part, rday(start), st, rday(end), et)
         }
     }
@@ -190,7 +193,9 @@ pub fn gen_c18(g: &mut Gen, tier: &str) {
     for _ in 0..n {
         let ast = gen_ast(g);
         let extra = (g.rng.range(0, 12) as u32, if g.rng.chance(1, 4) { g.rng.range(0, 3) as u32 } else { 0 }, g.rng.range(0, 4) as u32, g.rng.range(0, 4) as u32);
+        FULL_FORM.store(g.rng.chance(1, 3), std::sync::atomic::Ordering::Relaxed);
         let bytes = encode(&ast, g.rng.chance(1, 4), extra);
+        FULL_FORM.store(false, std::sync::atomic::Ordering::Relaxed);
         let ts = aim_timestamps(g, &ast, 10);
         let mut ints = vec![ts.len() as i128];
         ints.extend(ts.iter());
